@@ -386,7 +386,11 @@ class FakeTRX(Transceiver):
 		elif self.ctrl_if.verify_cmd(request, "FAKE_TRXC_DELAY", 1):
 			log.debug("(%s) Recv FAKE_TRXC_DELAY cmd", self)
 
-			self.ctrl_if.rsp_delay_ms = int(request[1])
+			# Refuse delays that time.sleep() cannot handle (and nobody can wait for)
+			delay_ms = int(request[1])
+			if delay_ms < 0 or delay_ms > 60 * 1000:
+				return -1
+			self.ctrl_if.rsp_delay_ms = delay_ms
 			log.info("(%s) Artificial TRXC delay set to %d",
 				 self, self.ctrl_if.rsp_delay_ms)
 
